@@ -18,6 +18,7 @@ func init() {
 		c02Synchronous(c)
 		c02CandidateIsolation(c)
 		c02Jsonp(c)
+		c03AdmittedStates(c, "C02.1b", map[string]bool{"onPacket/emit(packet)": true}) // delivered whenever (and only when) open
 		// WebTransport frames: the kind and the bytes of an inbound message come from the framing layer
 		c13KindBit(c)               // C02.8a = C13.3: kind bit read as written
 		wtPeekValidity(c, "C02.8b") // header bytes used while still valid
